@@ -41,6 +41,11 @@ var c09Jobs = []c09Item{
 	{name: "outuser", deps: []string{"outjob"}, text: "  outuser:\n    needs: outjob\n    runs-on: ubuntu-latest\n    steps:\n      - run: echo ${{ needs.outjob.outputs.o1 }} ${{ needs.outjob.outputs.o2 }}\n"},
 	{name: "broken", text: "  broken:\n    steps:\n      - run: echo ${{ nosuch }}\n      - uses: actions/checkout@v4\n        with:\n          bogus: 1\n"},
 	{name: "caller", text: "  caller:\n    uses: owner/repo/.github/workflows/w.yml@v1\n    with:\n      a: ${{ matrix.os }}\n    secrets: inherit\n"},
+	{name: "callermatrix", text: "  callermatrix:\n    strategy:\n      matrix:\n        os: [a]\n        target: [t]\n    uses: owner/repo/.github/workflows/w.yml@v1\n    with:\n      a: ${{ matrix.os }}\n"},
+	{name: "matrixexpr", text: "  matrixexpr:\n    runs-on: ubuntu-latest\n    strategy:\n      matrix: ${{ fromJSON(vars.M) }}\n    steps:\n      - run: echo ${{ matrix.anything }}\n"},
+	{name: "victim", text: "  victim:\n    runs-on: ubuntu-latest\n    env:\n      V: ${{ matrix.target }}\n    steps:\n      - run: echo ${{ matrix.target }} ${{ matrix.os }} ${{ steps.s.outputs.v }} ${{ needs.outjob.outputs.o1 }} ${{ env.V }}\n      - run: echo\n"},
+	{name: "callerneeds", deps: []string{"outjob"}, text: "  callerneeds:\n    needs: [outjob]\n    uses: owner/repo/.github/workflows/w.yml@v1\n    with:\n      a: ${{ needs.outjob.outputs.o1 }} ${{ needs.outjob.outputs.nope }}\n"},
+	{name: "services", text: "  services:\n    runs-on: ubuntu-latest\n    services:\n      db:\n        image: pg\n    steps:\n      - id: s\n        run: echo ${{ job.services.db.id }} ${{ job.services.nope.id }}\n"},
 	{name: "creds", text: "  creds:\n    runs-on: ubuntu-latest\n    container:\n      image: x\n      credentials:\n        username: u\n        password: plain\n    env:\n      'bad name': 1\n    permissions:\n      nosuchscope: read\n    steps:\n      - run: echo '::set-output name=a::b'\n        if: ${{ true }} && false\n"},
 }
 
@@ -197,7 +202,7 @@ func TestVerifC09(t *testing.T) {
 	r.Bounds["step_sequence_length"] = stepLen
 	r.Bounds["expression_sequence_length"] = exprLen
 	r.Bounds["jobs"], r.Bounds["steps"], r.Bounds["expressions"] = len(c09Jobs), len(c09Steps), len(c09Exprs)
-	r.Extra["rule"] = "libraries of 14 jobs, 13 steps and 21 expression strings that write rule state (matrix with .*, shell defaults, runner platform, conflicting labels, duplicate ids, needs, outputs, erroneous items); every sequence without repetition up to the length bound in file order; each item's diagnostics (relative positions) compared with the item alone plus its declared dependencies (needed jobs / earlier id-carrying steps); a slice of job pairs under every single map-order deviation. class = (family, item, has diagnostics); non-trivial = the item has diagnostics"
+	r.Extra["rule"] = "libraries of 19 jobs, 13 steps and 21 expression strings that write rule state (matrix with .*, shell defaults, runner platform, conflicting labels, duplicate ids, needs, outputs, erroneous items); every sequence without repetition up to the length bound in file order; each item's diagnostics (relative positions) compared with the item alone plus its declared dependencies (needed jobs / earlier id-carrying steps); a slice of job pairs under every single map-order deviation. class = (family, item, has diagnostics); non-trivial = the item has diagnostics"
 	r.Extra["assumptions"] = []string{"dependencies of a step are the earlier steps that carry an id (verbatim), of a job its needed jobs; everything else counts as unrelated", "line numbers echoed in messages are compared relative to the item"}
 	families := []*c09Family{
 		{name: "jobs", header: "on: pull_request\njobs:\n", items: c09Jobs},
